@@ -60,14 +60,18 @@ pub struct KnownHit {
     pub clause: String,
     pub detail: String,
     pub step: usize,
+    /// id of the message whose delivery was not recorded
+    pub msg_id: u32,
+    /// the trigger of the known finding C16-dmq-dedup-ignores-sender is present
+    pub dedup_trigger: bool,
+    /// another party had submitted a copy of this payload before
+    pub foreign_copy_before: bool,
 }
 
 pub struct Oracle {
     pub property: String,
     pub found: Vec<Found>,
     pub known_hits: Vec<KnownHit>,
-    /// false in counterfactual re-runs: every violation is reported as such
-    pub attribute_known: bool,
     /// certificates in first-seen order
     pub certs: Vec<CertificateRow>,
     cert_seen_step: BTreeMap<String, usize>,
@@ -102,7 +106,6 @@ impl Oracle {
             property: property.to_string(),
             found: vec![],
             known_hits: vec![],
-            attribute_known: true,
             certs: vec![],
             cert_seen_step: BTreeMap::new(),
             verified: BTreeSet::new(),
@@ -1261,24 +1264,25 @@ impl Oracle {
                         && x.status == 0
                         && matches!(&x.msg.kind, MsgKind::Signature { signature_hex: h, entity: e, claimed: c, .. } if h == signature_hex && e == entity && *c != party_id)
                 });
-            if dedup_trigger && self.attribute_known {
-                self.probe("c16_known_dmq_dedup_suppression");
-                self.known_hits.push(KnownHit {
-                    finding: "C16-dmq-dedup-ignores-sender".into(),
-                    clause: "contribution-suppressed".into(),
-                    detail: format!(
-                        "the valid signature of registered party {} for {} reached the aggregator at step {} through the message queue while the round was open, and is not recorded: the same payload had been submitted before under another name ({})",
-                        short(&party_id), entity.label(), d.step, same_payload_before.join(", ")),
-                    step,
-                });
-                continue;
-            }
-            self.report(step, "contribution-suppressed", format!(
-                "the valid signature of registered party {} for {} reached the aggregator at step {} through {} while the round was open, and is not recorded{}{}",
-                short(&party_id), entity.label(), d.step,
-                if d.status == 0 { "the message queue".to_string() } else { format!("HTTP (status {})", d.status) },
-                if same_payload_before.is_empty() { String::new() } else { format!("; the same payload had been submitted before under another name: {}", same_payload_before.join(", ")) },
-                if d.response.is_empty() { String::new() } else { format!("; response: {}", crate::world::first_line(&d.response)) }));
+            // The statement is about what *other parties' submissions* can do to this party's
+            // contribution. Whether they caused it is decided by the engine with counterfactual
+            // re-runs (same history without the foreign material; then, for the known finding,
+            // without the deduplicating client): here the suspect is recorded and the run goes on.
+            self.probe("c16_honest_delivery_not_recorded");
+            self.known_hits.push(KnownHit {
+                finding: "C16-dmq-dedup-ignores-sender".into(),
+                clause: "contribution-suppressed".into(),
+                detail: format!(
+                    "the valid signature of registered party {} for {} reached the aggregator at step {} through {} while the round was open, and is not recorded{}{}",
+                    short(&party_id), entity.label(), d.step,
+                    if d.status == 0 { "the message queue".to_string() } else { format!("HTTP (status {})", d.status) },
+                    if same_payload_before.is_empty() { String::new() } else { format!("; the same payload had been submitted before under another name: {}", same_payload_before.join(", ")) },
+                    if d.response.is_empty() { String::new() } else { format!("; response: {}", crate::world::first_line(&d.response)) }),
+                step,
+                msg_id: d.msg.id,
+                dedup_trigger,
+                foreign_copy_before: !same_payload_before.is_empty(),
+            });
         }
     }
 
